@@ -56,12 +56,20 @@ class T:
         return [('none', None), ('bool', s.bool(name + '.b')), ('int', s.int(name + '.i')), ('float', s.float(name + '.f')),
                 ('str', s.str(name + '.s', strL)), ('list', []), ('dict', {})] + list(extra)
 
+    def _leafs_after(s, first, name, strL, extra):
+        # when a (longer) free string is already the first alternative, the generic short string alternative would only
+        # duplicate part of it -- and oracles identify "is a string" with that first alternative
+        leafs = s.json_leafs(name, strL, extra)
+        if any(isinstance(v, SStr) for _, v in first):
+            leafs = [(l, v) for l, v in leafs if l != 'str']
+        return list(first) + leafs
+
     def anyjson(s, name, strL=3, extra=(), first=()):
-        return s.any(name, list(first) + s.json_leafs(name, strL, extra))
+        return s.any(name, s._leafs_after(first, name, strL, extra))
 
     def anyvalue(s, name, strL=3, first=()):
         """every JSON kind plus the exotic pool of concrete non-JSON Python values"""
-        return s.any(name, list(first) + s.json_leafs(name, strL, EXOTIC))
+        return s.any(name, s._leafs_after(first, name, strL, EXOTIC))
 
     def sdict(s, name, entries, optional=True, frozen=False):
         """entries: list of (key, value) or (key, value, presence); presence symbolic if optional"""
